@@ -196,7 +196,19 @@ func execPubSub(t *trace, script []string) {
 					default:
 					}
 					time.Sleep(time.Duration(r.Intn(400)) * time.Microsecond)
-					switch r.Pick(5, 4, 1) {
+					switch r.Pick(10, 8, 2, 1) {
+					case 3: // never run, context cancelled, THEN the iterator is called with a nil yield (a caller bug that panics by
+						// design): the subscription was already withdrawn by the cancellation and must not be withdrawn twice
+						ctx, cancel := context.WithCancel(context.Background())
+						seq := x.SubscribeContext(ctx)
+						time.Sleep(time.Duration(r.Intn(300)) * time.Microsecond)
+						cancel()
+						waitUnsub(log, name)
+						func() {
+							defer func() { recover() }()
+							seq(nil)
+						}()
+						log.Add("nilyield %s", name)
 					case 0: // manual subscriber
 						x.Add(1)
 						left := 1 + r.Intn(4) // rounds before leaving on its own
@@ -238,13 +250,24 @@ func execPubSub(t *trace, script []string) {
 							early = r.Intn(3)
 						}
 						got := 0
-						for v := range seq {
-							log.Add("yield %s v=%d", name, v)
-							got++
-							if early >= 0 && got > early {
-								break
+						abort := early >= 0 && r.Chance(35) // leave the loop by a panic in its body (recovered by the caller) instead of break
+						func() {
+							defer func() {
+								if p := recover(); p != nil && p != any("loop body aborted") {
+									panic(p)
+								}
+							}()
+							for v := range seq {
+								log.Add("yield %s v=%d", name, v)
+								got++
+								if early >= 0 && got > early {
+									if abort {
+										panic("loop body aborted")
+									}
+									break
+								}
 							}
-						}
+						}()
 						log.Add("iterend %s", name)
 						cancel()
 						waitUnsub(log, name) // (if the context was cancelled first, the AfterFunc goroutine unsubscribes)
